@@ -4,6 +4,7 @@
    functions):
      tab  i v              tableCRC32[i]
      upd  s b v            updateCRC32(s, [b])
+     updm s m v            updateCRC32(s, m) for a multi-byte piece m fed into register state s
      msg  m v inc          computeCRC32(m); inc[j] = updateCRC32(updateCRC32(init, m[:j]), m[j:]) for every split j
    Every value is recomputed bit by bit (CRC32.tla) and compared; the pieces
    must equal the one-pass value; message || checksum must have residue 0. *)
@@ -18,6 +19,8 @@ Step(s, e, i) ==
   CASE e.ev = "reset" -> [tr |-> e.t, at |-> i]
     [] e.ev = "tab" -> RepIf(TableEntry(e.i) # e.v, s0, V("table-entry", s0, [i |-> e.i, got |-> e.v, want |-> TableEntry(e.i)]))
     [] e.ev = "upd" -> RepIf(StepByte(e.s, e.b) # e.v, s0, V("single-step", s0, [s |-> e.s, b |-> e.b, got |-> e.v, want |-> StepByte(e.s, e.b)]))
+    [] e.ev = "updm" -> RepIf(Update(e.s, e.m) # e.v, s0, V("piece-into-state", s0, [s |-> e.s, len |-> Len(e.m), got |-> e.v, want |-> Update(e.s, e.m)]))
+    [] e.ev = "cmp" -> RepIf(Of(e.m) # e.v, s0, V("message", s0, [len |-> Len(e.m), got |-> e.v, want |-> Of(e.m)]))
     [] e.ev = "msg" ->
          LET want == Of(e.m)
              s1 == RepIf(want # e.v, s0, V("message", s0, [len |-> Len(e.m), got |-> e.v, want |-> want]))
